@@ -95,8 +95,8 @@ inductive TmoParse
   | keep | set (n : Int) | valueError | overflowError
 deriving DecidableEq, Repr
 
-/-- `timedelta(seconds=n)` is representable: |days| ≤ 999999999 -/
-def tdOk (n : Int) : Bool := decide (-999999999 ≤ n.fdiv 86400) && decide (n.fdiv 86400 ≤ 999999999)
+/-- `timedelta(seconds=n)` is representable: |days| ≤ 999999999 where days = ⌊n / 86400⌋ -/
+def tdOk (n : Int) : Bool := decide (-86399999913600 ≤ n) && decide (n ≤ 86399999999999)
 
 def parseTimeoutHdr : Option Str → TmoParse
   | none => .keep
